@@ -369,3 +369,491 @@ mod tests {
         }
     }
 }
+
+// ------------------------------------------------------------------------------------------------
+// Compression header and slice header models (CRAMv3 §8.4, §8.5, §13): every integer parameter is a slot that
+// can be read and overwritten; serialisation re-computes parameter lengths, map sizes and counts unless a slot
+// overrode them.
+
+#[derive(Clone, Debug, PartialEq)]
+pub enum Params {
+    /// unknown codec: parameter bytes kept as they are
+    Raw(Vec<u8>),
+    /// NULL [], EXTERNAL [block content id], GOLOMB [offset, m], BETA [offset, bits], SUBEXP [offset, k],
+    /// GOLOMB_RICE [offset, log2 m], GAMMA [offset]
+    Ints(Vec<i32>),
+    Huffman { alphabet: Vec<i32>, lens: Vec<i32>, alphabet_count: Option<i32>, lens_count: Option<i32> },
+    ByteArrayLen(Box<Enc>, Box<Enc>),
+    ByteArrayStop { stop: i32, id: i32 },
+}
+
+#[derive(Clone, Debug, PartialEq)]
+pub struct Enc {
+    pub codec: i32,
+    pub params: Params,
+    pub len_override: Option<i32>,
+}
+
+#[derive(Clone, Debug, PartialEq, Default)]
+pub struct MapOverrides {
+    pub size: Option<i32>,
+    pub count: Option<i32>,
+}
+
+#[derive(Clone, Debug, PartialEq)]
+pub struct CompHeader {
+    /// (2-byte key, raw value bytes)
+    pub pres: Vec<(Vec<u8>, Vec<u8>)>,
+    pub pres_over: MapOverrides,
+    pub ds: Vec<(Vec<u8>, Enc)>,
+    pub ds_over: MapOverrides,
+    pub tags: Vec<(i32, Enc)>,
+    pub tags_over: MapOverrides,
+    pub rest: Vec<u8>,
+}
+
+fn take_itf8(b: &[u8], p: &mut usize) -> Option<i32> {
+    let (v, n) = read_itf8(b, *p)?;
+    *p += n;
+    Some(v)
+}
+
+fn parse_enc(b: &[u8], p: &mut usize, depth: usize) -> Option<Enc> {
+    let codec = take_itf8(b, p)?;
+    let len = usize::try_from(take_itf8(b, p)?).ok()?;
+    let raw = b.get(*p..*p + len)?;
+    *p += len;
+    let mut q = 0usize;
+    let params = match codec {
+        0 if raw.is_empty() => Params::Ints(vec![]),
+        1 | 9 => Params::Ints(vec![take_itf8(raw, &mut q)?]),
+        2 | 6 | 7 | 8 => Params::Ints(vec![take_itf8(raw, &mut q)?, take_itf8(raw, &mut q)?]),
+        3 => {
+            let n = usize::try_from(take_itf8(raw, &mut q)?).ok()?;
+            let mut alphabet = vec![];
+            for _ in 0..n {
+                alphabet.push(take_itf8(raw, &mut q)?);
+            }
+            let m = usize::try_from(take_itf8(raw, &mut q)?).ok()?;
+            let mut lens = vec![];
+            for _ in 0..m {
+                lens.push(take_itf8(raw, &mut q)?);
+            }
+            Params::Huffman { alphabet, lens, alphabet_count: None, lens_count: None }
+        }
+        4 if depth < 3 => {
+            let a = parse_enc(raw, &mut q, depth + 1)?;
+            let c = parse_enc(raw, &mut q, depth + 1)?;
+            Params::ByteArrayLen(Box::new(a), Box::new(c))
+        }
+        5 => {
+            let stop = *raw.first()? as i32;
+            q = 1;
+            Params::ByteArrayStop { stop, id: take_itf8(raw, &mut q)? }
+        }
+        _ => {
+            q = raw.len();
+            Params::Raw(raw.to_vec())
+        }
+    };
+    if q != raw.len() {
+        return None;
+    }
+    Some(Enc { codec, params, len_override: None })
+}
+
+fn write_params(out: &mut Vec<u8>, p: &Params) {
+    match p {
+        Params::Raw(r) => out.extend_from_slice(r),
+        Params::Ints(v) => {
+            for x in v {
+                write_itf8(out, *x);
+            }
+        }
+        Params::Huffman { alphabet, lens, alphabet_count, lens_count } => {
+            write_itf8(out, alphabet_count.unwrap_or(alphabet.len() as i32));
+            for x in alphabet {
+                write_itf8(out, *x);
+            }
+            write_itf8(out, lens_count.unwrap_or(lens.len() as i32));
+            for x in lens {
+                write_itf8(out, *x);
+            }
+        }
+        Params::ByteArrayLen(a, b) => {
+            write_enc(out, a);
+            write_enc(out, b);
+        }
+        Params::ByteArrayStop { stop, id } => {
+            out.push(*stop as u8);
+            write_itf8(out, *id);
+        }
+    }
+}
+
+fn write_enc(out: &mut Vec<u8>, e: &Enc) {
+    write_itf8(out, e.codec);
+    let mut p = Vec::new();
+    write_params(&mut p, &e.params);
+    write_itf8(out, e.len_override.unwrap_or(p.len() as i32));
+    out.extend_from_slice(&p);
+}
+
+pub fn parse_comp_header(b: &[u8]) -> Option<CompHeader> {
+    let mut p = 0usize;
+    // preservation map
+    let size = usize::try_from(take_itf8(b, &mut p)?).ok()?;
+    let end = p.checked_add(size)?;
+    let n = take_itf8(b, &mut p)?;
+    let mut pres = vec![];
+    for _ in 0..n {
+        let key = b.get(p..p + 2)?.to_vec();
+        p += 2;
+        let vlen = match &key[..] {
+            b"RN" | b"AP" | b"RR" => 1,
+            b"SM" => 5,
+            b"TD" => {
+                let (l, k) = read_itf8(b, p)?;
+                k + usize::try_from(l).ok()?
+            }
+            _ => return None,
+        };
+        pres.push((key, b.get(p..p + vlen)?.to_vec()));
+        p += vlen;
+    }
+    if p != end {
+        return None;
+    }
+    // data series encodings
+    let size = usize::try_from(take_itf8(b, &mut p)?).ok()?;
+    let end = p.checked_add(size)?;
+    let n = take_itf8(b, &mut p)?;
+    let mut ds = vec![];
+    for _ in 0..n {
+        let key = b.get(p..p + 2)?.to_vec();
+        p += 2;
+        ds.push((key, parse_enc(b, &mut p, 0)?));
+    }
+    if p != end {
+        return None;
+    }
+    // tag encodings
+    let size = usize::try_from(take_itf8(b, &mut p)?).ok()?;
+    let end = p.checked_add(size)?;
+    let n = take_itf8(b, &mut p)?;
+    let mut tags = vec![];
+    for _ in 0..n {
+        let key = take_itf8(b, &mut p)?;
+        tags.push((key, parse_enc(b, &mut p, 0)?));
+    }
+    if p != end {
+        return None;
+    }
+    Some(CompHeader { pres, pres_over: Default::default(), ds, ds_over: Default::default(), tags, tags_over: Default::default(), rest: b[p..].to_vec() })
+}
+
+pub fn serialise_comp_header(h: &CompHeader) -> Vec<u8> {
+    let mut out = Vec::new();
+    let mut map = |out: &mut Vec<u8>, over: &MapOverrides, count: usize, body: Vec<u8>| {
+        let mut inner = Vec::new();
+        write_itf8(&mut inner, over.count.unwrap_or(count as i32));
+        inner.extend_from_slice(&body);
+        write_itf8(out, over.size.unwrap_or(inner.len() as i32));
+        out.extend_from_slice(&inner);
+    };
+    let mut body = Vec::new();
+    for (k, v) in &h.pres {
+        body.extend_from_slice(k);
+        body.extend_from_slice(v);
+    }
+    map(&mut out, &h.pres_over, h.pres.len(), body);
+    let mut body = Vec::new();
+    for (k, e) in &h.ds {
+        body.extend_from_slice(k);
+        write_enc(&mut body, e);
+    }
+    map(&mut out, &h.ds_over, h.ds.len(), body);
+    let mut body = Vec::new();
+    for (k, e) in &h.tags {
+        write_itf8(&mut body, *k);
+        write_enc(&mut body, e);
+    }
+    map(&mut out, &h.tags_over, h.tags.len(), body);
+    out.extend_from_slice(&h.rest);
+    out
+}
+
+/// Visits the integer slots of an encoding in a fixed order. `f(name, is_block_id, slot)`.
+fn enc_slots(e: &mut Enc, path: &str, f: &mut dyn FnMut(String, bool, &mut i32)) {
+    f(format!("{path}.codec"), false, &mut e.codec);
+    {
+        let mut p = Vec::new();
+        write_params(&mut p, &e.params);
+        let mut len = e.len_override.unwrap_or(p.len() as i32);
+        let before = len;
+        f(format!("{path}.param_length"), false, &mut len);
+        if len != before {
+            e.len_override = Some(len);
+        }
+    }
+    let codec = e.codec;
+    match &mut e.params {
+        Params::Raw(_) => {}
+        Params::Ints(v) => {
+            for (i, x) in v.iter_mut().enumerate() {
+                let is_id = codec == 1 && i == 0;
+                f(format!("{path}.{}", if is_id { "block_content_id".to_string() } else { format!("param{i}") }), is_id, x);
+            }
+        }
+        Params::Huffman { alphabet, lens, alphabet_count, lens_count } => {
+            let mut c = alphabet_count.unwrap_or(alphabet.len() as i32);
+            let b = c;
+            f(format!("{path}.huffman_alphabet_count"), false, &mut c);
+            if c != b {
+                *alphabet_count = Some(c);
+            }
+            for (i, x) in alphabet.iter_mut().enumerate().take(4) {
+                f(format!("{path}.huffman_symbol{i}"), false, x);
+            }
+            let mut c = lens_count.unwrap_or(lens.len() as i32);
+            let b = c;
+            f(format!("{path}.huffman_bit_length_count"), false, &mut c);
+            if c != b {
+                *lens_count = Some(c);
+            }
+            for (i, x) in lens.iter_mut().enumerate().take(4) {
+                f(format!("{path}.huffman_bit_length{i}"), false, x);
+            }
+        }
+        Params::ByteArrayLen(a, b) => {
+            enc_slots(a, &format!("{path}.len_encoding"), f);
+            enc_slots(b, &format!("{path}.value_encoding"), f);
+        }
+        Params::ByteArrayStop { stop, id } => {
+            f(format!("{path}.stop_byte"), false, stop);
+            f(format!("{path}.block_content_id"), true, id);
+        }
+    }
+}
+
+impl CompHeader {
+    /// Visits every integer slot in a fixed order.
+    pub fn slots(&mut self, f: &mut dyn FnMut(String, bool, &mut i32)) {
+        fn over(name: &str, o: &mut MapOverrides, size: usize, count: usize, f: &mut dyn FnMut(String, bool, &mut i32)) {
+            let mut s = o.size.unwrap_or(size as i32);
+            let b = s;
+            f(format!("{name}.size_in_bytes"), false, &mut s);
+            if s != b {
+                o.size = Some(s);
+            }
+            let mut c = o.count.unwrap_or(count as i32);
+            let b = c;
+            f(format!("{name}.entry_count"), false, &mut c);
+            if c != b {
+                o.count = Some(c);
+            }
+        }
+        // sizes as they are now (only needed as the "current value" of the size slots)
+        let ser = serialise_comp_header(self);
+        let mut p = 0;
+        let s0 = take_itf8(&ser, &mut p).unwrap_or(0).max(0) as usize;
+        p = p.saturating_add(s0);
+        let s1 = take_itf8(&ser, &mut p).unwrap_or(0).max(0) as usize;
+        p = p.saturating_add(s1);
+        let s2 = take_itf8(&ser, &mut p).unwrap_or(0).max(0) as usize;
+        over("preservation_map", &mut self.pres_over, s0, self.pres.len(), f);
+        over("data_series_encodings", &mut self.ds_over, s1, self.ds.len(), f);
+        for (k, e) in self.ds.iter_mut() {
+            enc_slots(e, &format!("data_series[{}]", String::from_utf8_lossy(k)), f);
+        }
+        over("tag_encodings", &mut self.tags_over, s2, self.tags.len(), f);
+        for (k, e) in self.tags.iter_mut() {
+            let key = [(*k >> 16) as u8, (*k >> 8) as u8, *k as u8];
+            let name = format!("tag[{}]", String::from_utf8_lossy(&key));
+            f(format!("{name}.key"), false, k);
+            enc_slots(e, &name, f);
+        }
+    }
+}
+
+#[derive(Clone, Debug, PartialEq)]
+pub struct SliceHeader {
+    pub ints: Vec<i32>, // ref id, start, span, n_records
+    pub counter: i64,
+    pub n_blocks: i32,
+    pub ids: Vec<i32>,
+    pub ids_count: Option<i32>,
+    pub embedded_ref_id: i32,
+    pub rest: Vec<u8>, // md5 + optional tags
+}
+
+pub fn parse_slice_header(b: &[u8]) -> Option<SliceHeader> {
+    let mut p = 0;
+    let mut ints = vec![];
+    for _ in 0..4 {
+        ints.push(take_itf8(b, &mut p)?);
+    }
+    let (counter, n) = read_ltf8(b, p)?;
+    p += n;
+    let n_blocks = take_itf8(b, &mut p)?;
+    let n = usize::try_from(take_itf8(b, &mut p)?).ok()?;
+    let mut ids = vec![];
+    for _ in 0..n {
+        ids.push(take_itf8(b, &mut p)?);
+    }
+    let embedded_ref_id = take_itf8(b, &mut p)?;
+    if b.len() < p + 16 {
+        return None;
+    }
+    Some(SliceHeader { ints, counter, n_blocks, ids, ids_count: None, embedded_ref_id, rest: b[p..].to_vec() })
+}
+
+pub fn serialise_slice_header(h: &SliceHeader) -> Vec<u8> {
+    let mut out = Vec::new();
+    for x in &h.ints {
+        write_itf8(&mut out, *x);
+    }
+    write_ltf8(&mut out, h.counter);
+    write_itf8(&mut out, h.n_blocks);
+    write_itf8(&mut out, h.ids_count.unwrap_or(h.ids.len() as i32));
+    for x in &h.ids {
+        write_itf8(&mut out, *x);
+    }
+    write_itf8(&mut out, h.embedded_ref_id);
+    out.extend_from_slice(&h.rest);
+    out
+}
+
+impl SliceHeader {
+    pub fn slots(&mut self, f: &mut dyn FnMut(String, bool, &mut i32)) {
+        for (i, name) in ["reference_sequence_id", "alignment_start", "alignment_span", "record_count"].iter().enumerate() {
+            f(format!("slice_header.{name}"), false, &mut self.ints[i]);
+        }
+        f("slice_header.block_count".into(), false, &mut self.n_blocks);
+        let mut c = self.ids_count.unwrap_or(self.ids.len() as i32);
+        let b = c;
+        f("slice_header.block_content_id_count".into(), false, &mut c);
+        if c != b {
+            self.ids_count = Some(c);
+        }
+        for (i, x) in self.ids.iter_mut().enumerate() {
+            f(format!("slice_header.block_content_id[{i}]"), true, x);
+        }
+        f("slice_header.embedded_reference_block_content_id".into(), true, &mut self.embedded_ref_id);
+    }
+}
+
+/// What a structured CRAM mutation addresses inside one container.
+#[derive(Clone, Copy, Debug, PartialEq, Eq)]
+pub enum Target {
+    /// slot of the compression header (first block)
+    CompHeader(usize),
+    /// slot of the slice header in block `.0`
+    SliceHeader(usize, usize),
+    /// content id in the header of block `.0`
+    BlockContentId(usize),
+}
+
+pub const STRUCT_VALUES: [&str; 14] =
+    ["-1", "-64", "i32::MIN", "i32::MAX", "0", "63", "64", "65", "127", "128", "value+1", "value-1", "id-that-does-not-exist", "id-of-another-series"];
+
+fn struct_value(which: usize, cur: i32, ids: &[i32]) -> i32 {
+    match which {
+        0 => -1,
+        1 => -64,
+        2 => i32::MIN,
+        3 => i32::MAX,
+        4 => 0,
+        5 => 63,
+        6 => 64,
+        7 => 65,
+        8 => 127,
+        9 => 128,
+        10 => cur.wrapping_add(1),
+        11 => cur.wrapping_sub(1),
+        12 => ids.iter().copied().max().unwrap_or(0).saturating_add(1000),
+        _ => ids.iter().copied().find(|&i| i != cur).unwrap_or(cur.wrapping_add(7)),
+    }
+}
+
+/// The addressable slots of container `ci` (empty if its header blocks do not round-trip through the models).
+pub fn container_targets(c: &Cram, ci: usize) -> Vec<Target> {
+    let mut v = vec![];
+    let Some(ct) = c.containers.get(ci) else { return v };
+    if let Some(b0) = ct.blocks.first() {
+        if b0.method == 0 && b0.ctype == 1 {
+            if let Some(mut h) = parse_comp_header(&b0.data) {
+                if serialise_comp_header(&h) == b0.data {
+                    let mut n = 0;
+                    h.slots(&mut |_, _, _| n += 1);
+                    v.extend((0..n).map(Target::CompHeader));
+                }
+            }
+        }
+    }
+    for &bi in &ct.landmark_blocks {
+        if let Some(b) = ct.blocks.get(bi) {
+            if b.method == 0 && b.ctype == 2 {
+                if let Some(mut h) = parse_slice_header(&b.data) {
+                    if serialise_slice_header(&h) == b.data {
+                        let mut n = 0;
+                        h.slots(&mut |_, _, _| n += 1);
+                        v.extend((0..n).map(|s| Target::SliceHeader(bi, s)));
+                    }
+                }
+            }
+        }
+    }
+    v.extend((0..ct.blocks.len()).map(Target::BlockContentId));
+    v
+}
+
+/// Applies value `which` (index into `STRUCT_VALUES`, or `None` = the explicit `value`) to a target; returns a
+/// description. Sizes, lengths, counts, landmarks and CRCs are re-computed by the serialisers.
+pub fn apply_target(c: &mut Cram, ci: usize, t: Target, which: usize, explicit: Option<i32>) -> String {
+    let Some(ct) = c.containers.get_mut(ci) else { return "no such container".into() };
+    let ids: Vec<i32> = ct.blocks.iter().filter(|b| b.ctype == 4).map(|b| b.cid).collect();
+    let mut desc = String::new();
+    let mut set = |name: String, _is_id: bool, x: &mut i32| {
+        let v = explicit.unwrap_or_else(|| struct_value(which, *x, &ids));
+        desc = format!("container {ci} {name}: {} -> {v}", *x);
+        *x = v;
+    };
+    match t {
+        Target::CompHeader(slot) => {
+            if let Some(mut h) = ct.blocks.first().and_then(|b| parse_comp_header(&b.data)) {
+                let mut i = 0;
+                h.slots(&mut |n, id, x| {
+                    if i == slot {
+                        set(n, id, x);
+                    }
+                    i += 1;
+                });
+                let data = serialise_comp_header(&h);
+                ct.blocks[0].raw_size = data.len() as i32;
+                ct.blocks[0].data = data;
+            }
+        }
+        Target::SliceHeader(bi, slot) => {
+            if let Some(mut h) = ct.blocks.get(bi).and_then(|b| parse_slice_header(&b.data)) {
+                let mut i = 0;
+                h.slots(&mut |n, id, x| {
+                    if i == slot {
+                        set(n, id, x);
+                    }
+                    i += 1;
+                });
+                let data = serialise_slice_header(&h);
+                ct.blocks[bi].raw_size = data.len() as i32;
+                ct.blocks[bi].data = data;
+            }
+        }
+        Target::BlockContentId(bi) => {
+            if let Some(b) = ct.blocks.get_mut(bi) {
+                let ctype = b.ctype;
+                set(format!("block {bi} (type {ctype}) header content id"), true, &mut b.cid);
+            }
+        }
+    }
+    desc
+}
